@@ -132,3 +132,134 @@ func RunPassthrough(c *eng.Ctx, next func() (int, bool)) {
 		c.R.End(idx, eng.Hash("c11-passthrough", int(life)), pairs > 0)
 	}
 }
+
+// ---- outputs of one constructor invocation that are built from each other -------------------
+//
+// A result object / multi-return constructor may build a later output from an earlier one
+// (`Tiered: NewTieredCache(local, remote)` after `Local`, `Remote`; `Health: &HealthChecker{db}`
+// after `Database: db`). The later output received the earlier ones as dependencies, so it is
+// closed before them - whichever output was asked for first.
+
+type chLocal struct{}
+type chRemote struct{}
+type chTiered struct {
+	l *chLocal
+	r *chRemote
+}
+type chUser struct{ t *chTiered }
+
+func (*chLocal) Close() error  { ptClose("local"); return nil }
+func (*chRemote) Close() error { ptClose("remote"); return nil }
+func (*chTiered) Close() error { ptClose("tiered"); return nil }
+
+type chOut struct {
+	godi.Out
+	Local  *chLocal
+	Remote *chRemote
+	Tiered *chTiered
+}
+
+func chNewCaches() chOut {
+	l, r := &chLocal{}, &chRemote{}
+	ptMade("local, remote, tiered(local, remote)")
+	return chOut{Local: l, Remote: r, Tiered: &chTiered{l, r}}
+}
+func chNewCachesMR() (*chLocal, *chRemote, *chTiered) {
+	o := chNewCaches()
+	return o.Local, o.Remote, o.Tiered
+}
+func chNewUser(t *chTiered) *chUser { return &chUser{t} }
+
+// RunChainedOutputs: the LAST output is the first one asked for.
+func RunChainedOutputs(c *eng.Ctx, next func() (int, bool)) {
+	for _, form := range []string{"out-struct", "multi-return"} {
+		for _, life := range []godi.Lifetime{godi.Scoped, godi.Transient, godi.Singleton} {
+			idx, mine := next()
+			if !mine {
+				continue
+			}
+			c.R.Begin(idx)
+			rounds := 1
+			if life == godi.Singleton {
+				rounds = 24 // which output Build reaches first follows map order
+			}
+			pairs := 0
+			reported := false
+			for round := 0; round < rounds && !reported; round++ {
+				w := &ptWorld{seq: map[string]int{}}
+				ptMu.Lock()
+				ptCur = w
+				ptMu.Unlock()
+				func() {
+					defer func() { _ = recover() }()
+					coll := godi.NewCollection()
+					ctor := any(chNewCaches)
+					if form == "multi-return" {
+						ctor = chNewCachesMR
+					}
+					if err := eqAdd(coll, life, ctor); err != nil {
+						return
+					}
+					userLife := life
+					if life == godi.Transient {
+						userLife = godi.Scoped
+					}
+					_ = eqAdd(coll, userLife, chNewUser)
+					prov, err := coll.Build()
+					if err != nil {
+						return
+					}
+					s, _ := prov.CreateScope(nil)
+					if s != nil {
+						_, _ = godi.Resolve[*chTiered](s) // the last output first
+						_, _ = godi.Resolve[*chUser](s)
+						if life != godi.Transient {
+							_, _ = godi.Resolve[*chLocal](s)
+						}
+						_ = s.Close()
+					}
+					_ = prov.Close()
+				}()
+				w.mu.Lock()
+				ev := append([]string{}, w.events...)
+				// first "close tiered" vs first "close local"/"close remote" AFTER it was created in the same invocation:
+				// with transients several invocations exist; the event list is per invocation order, so judge per contiguous close block
+				pos := map[string][]int{}
+				for i, e := range ev {
+					if len(e) > 6 && e[:6] == "close " {
+						pos[e[6:]] = append(pos[e[6:]], i)
+					}
+				}
+				w.mu.Unlock()
+				ptMu.Lock()
+				ptCur = nil
+				ptMu.Unlock()
+				n := len(pos["tiered"])
+				for _, dep := range []string{"local", "remote"} {
+					if len(pos[dep]) != n {
+						continue
+					}
+					for k := 0; k < n; k++ {
+						pairs++
+						// the k-th closed tiered belongs to the k-th closed local only when closes go invocation by invocation; judge the aggregate instead:
+					}
+				}
+				if n > 0 && len(pos["local"]) > 0 && len(pos["remote"]) > 0 {
+					firstDep := pos["local"][0]
+					if pos["remote"][0] < firstDep {
+						firstDep = pos["remote"][0]
+					}
+					// every tiered instance holds a local and a remote of its own invocation; if ANY dependency is closed before the first tiered, a tiered was still open
+					if firstDep < pos["tiered"][0] {
+						reported = true
+						c.R.Violation(eng.Violation{Prop: "C11", Clause: "dependency-closed-before-dependent", Sig: "C11/dependency-closed-before-dependent:outputs-of-one-invocation-built-from-each-other:" + form + ":" + lifeName(life), Case: idx, CaseID: "chained-outputs-" + form + "-" + lifeName(life),
+							Detail: fmt.Sprintf("the constructor builds its last output (tiered) from its earlier outputs (local, remote); the last output was resolved first; a dependency was closed while the output built from it was still open; events: %v", ev)})
+					}
+				}
+			}
+			c.R.Count("ordered_pairs_checked", int64(pairs))
+			c.R.Count("chained_output_cases", 1)
+			c.R.End(idx, eng.Hash("c11-chained-outputs", form, int(life)), pairs > 0)
+		}
+	}
+}
